@@ -873,7 +873,7 @@ func (fa *FuncAnalysis) replay(st memState, in ssa.Instruction) {
 // function still has the same number of parameters with the same types; the current name otherwise.
 func reviewedParamName(p *ssa.Parameter) string {
 	fn := p.Parent()
-	if fn == nil || fn.Parent() != nil {
+	if fn == nil {
 		return p.Name()
 	}
 	base, ok := baselineParams[FuncKey(fn)]
@@ -894,4 +894,3 @@ func reviewedParamName(p *ssa.Parameter) string {
 	}
 	return base[idx][0]
 }
-
